@@ -17,7 +17,7 @@ use serde_json::{json, Value};
 pub static DEF: PropDef = PropDef {
     id: "C12",
     level: "exploration",
-    rule: "three real instances share two rooms with random rights; instance A performs API operations (create, update own / foreign, move, nested create and update, reference set / add / clear, node and reference deletion, rows around the size limit, rows with nullable fields omitted). Accepted operation: instance B pulls from A and must end with exactly the rows A changed (same versions, same deletions). Refused operation (refused for lack of right or for size): the rows the operation would have produced are built, signed with A's key and served to B by a harness peer; B must not store them. non-trivial = history with both verdicts and a foreign-row operation; distinct = (operation kind, verdict) sets",
+    rule: "three real instances share two rooms with random rights; instance A performs API operations (create, update own / foreign, move, nested create and update, reference set / add / clear, node and reference deletion, rows around the size limit, rows with nullable fields omitted). Accepted operation: instance B pulls from A and must end with exactly the rows A changed (same versions, same deletions). Refused operation (refused for lack of right or for size): the rows the operation would have produced are built, signed with A's key and served to B by a harness peer; B must not store them. non-trivial = history with both verdicts and a foreign-row operation; distinct = (operation kind, verdict) sets During the history the admin changes the rights / membership of the instance under test (every instance learns it at once), followed by moves, updates and deletions of the rows written before.",
     assumptions: &[
         "refused operations are replayed for the kinds whose produced rows are fully determined: create, update, move, node deletion, reference addition, oversized row",
         "max_object_size_in_kb is set to 2 on every instance so that rows around the limit stay small",
